@@ -84,3 +84,9 @@ Example table_example :
   update_state (mk_sub KeepAlive 5 1 true true 9 3) (mk_params false false false true true) =
     Res 15 AKeepAlive (mk_sub KeepAlive 8 3 true true 9 3).
 Proof. vm_compute. reflexivity. Qed.
+
+Example schedule_example :
+  map (ka_schedule 3) [1; 2; 3; 4; 5; 6; 7; 8; 9; 10; 11] =
+    [true; false; false; false; true; false; false; true; false; false; true] /\
+  map (ka_schedule 1) [1; 2; 3; 4; 5] = [true; false; true; true; true].
+Proof. vm_compute. split; reflexivity. Qed.
